@@ -503,7 +503,8 @@ package gorm
 //@ # ---------- chain methods on a chain in progress (clone == 0): they continue on the same handle ----------
 //@ funcalt chained (*DB).Model (*DB).Table (*DB).Omit (*DB).MapColumns (*DB).Where (*DB).Not (*DB).Or (*DB).Joins (*DB).InnerJoins (*DB).Group (*DB).Having (*DB).Order (*DB).Limit (*DB).Offset (*DB).Scopes (*DB).Preload (*DB).Attrs (*DB).Assign (*DB).Unscoped joins
 //@   tags C06
-//@   when db.clone <= 0 && db.Statement != nil && db.Statement.DB == db
+//@   when db.clone <= 0
+//@   assumes chain-handle-well-formed: db.Statement != nil && db.Statement.DB == db
 //@   modifies db.Statement.Model, db.Statement.Table, db.Statement.TableExpr, db.Statement.Omits, db.Statement.ColumnMapping, db.Statement.Preloads, db.Statement.attrs, db.Statement.assigns, db.Statement.Unscoped, db.Statement.SQL, db.Statement.Vars, db.Statement.Dest, db.Statement.Joins, db.Statement.scopes, db.Statement.Joins[*], db.Statement.scopes[*], db.Statement.Clauses[*], db.Statement.Preloads[*], db.Error
 //@   ensures same-handle: result == db
 //@   ensures still-chain-in-progress: result.clone <= 0 && result.Statement != nil && result.Statement.DB == result && result.Statement == old(db.Statement)
